@@ -200,7 +200,13 @@ def check_rekey_not_overridden(ctx, cfg):
 def n_field_writes(ctx, cfg):
     """all direct writes (assignments / struct literals) to field `n` of cipherstate::CipherState"""
     F = ctx.facts[cfg]
-    cs = F.crate + "::cipherstate::CipherState"
+    return field_writes(ctx, cfg, F.crate + "::cipherstate::CipherState", "n")
+
+
+def field_writes(ctx, cfg, cs, field):
+    """all direct writes (assignments / struct literals) to `field` of ADT `cs` in the crate:
+    [(fn, bb, stmt, value-expr, 'assign'|'init')]"""
+    F = ctx.facts[cfg]
     out = []
     for fn in F.fns():
         R = None
@@ -210,7 +216,7 @@ def n_field_writes(ctx, cfg):
                     continue
                 pl = s["place"]
                 # field write: ... .n where the parent type is CipherState
-                if pl["proj"] and pl["proj"][-1]["k"] == "field" and pl["proj"][-1].get("name") == "n":
+                if pl["proj"] and pl["proj"][-1]["k"] == "field" and pl["proj"][-1].get("name") == field:
                     # parent type: check via the type of the place one level up
                     parent_ty = place_parent_ty(F, fn, pl)
                     if parent_ty and parent_ty.get("adt") == cs:
@@ -219,7 +225,7 @@ def n_field_writes(ctx, cfg):
                 rv = s["rv"]
                 if rv["k"] == "aggregate" and rv.get("agg") == "adt" and rv["adt"] == cs:
                     R = R or ctx.guards(cfg, fn).R
-                    idx = rv["field_names"].index("n")
+                    idx = rv["field_names"].index(field)
                     out.append((fn, bi, s, strip_bb(R.op(rv["ops"][idx])), "init"))
     return out
 
@@ -301,7 +307,16 @@ def check_n_setter_callers(ctx, cfg):
             v = strip_bb(R.op(t["args"][argi]))
             key = "%s->%s" % (short(fn.path), short(sp))
             count += 1
-            if also_key:
+            rollback = False
+            if also_key and v[0] == "place" and len(v[1]) == 1:
+                (root, proj) = next(iter(v[1]))
+                sm = ctx.eff(cfg).sums.get(fn.path)
+                if root[0] == "loc" and 1 <= root[1] <= fn.argc and fn.local_ty(root[1])["k"] not in ("ref", "refmut") and sm and sm.assign_whole:
+                    rollback = True
+            if rollback:
+                ctx.ob("n-set-callers", key, True,
+                       "roll-back: re-installs key and nonce from a by-value checkpoint (audited by rule cipher-rollback)", where(fn, t), cfg)
+            elif also_key:
                 # key change (+ nonce): nonce must be the constant 0
                 ok = v == ("const", 0)
                 ctx.ob("n-set-callers", key, ok,
